@@ -22,9 +22,12 @@ if Z == 0:
 BASE = v2version.parse_field_values_to_vinfo({'year_y': "2020"})
 
 
+BUMP_PATTERN = P.get("bump_pattern", "YYYY.BUILD")
+
+
 def bump_bid(bid: str) -> str:
-    old = BASE._replace(bid=bid)
-    new = v2version._incr_numeric("YYYY.BUILD", old, old, major=False, minor=False, patch=False, tag=None, tag_num=False,
+    old = BASE._replace(bid=bid, tag="beta", pytag="b", num=3)
+    new = v2version._incr_numeric(BUMP_PATTERN, old, old, major=False, minor=False, patch=False, tag=None, tag_num=False,
                                   pin_increments=False)
     return new.bid
 
@@ -43,6 +46,8 @@ def build_step(v: int) -> bool:
     """
     old = "0" * Z + str(v)
     new = bump_bid(old)
+    if not isinstance(new, str):
+        return False  # the id is text (leading zeros are part of it)
     if not _digits(new):
         return False
     if not int(new) > v:
